@@ -166,7 +166,7 @@ func genHeader(t *rapid.T, f features, goos, goarch string) (string, []string) {
 	switch {
 	case style == 0:
 		labels = append(labels, "no-constraint")
-	case style <= 3: // +build only
+	case style <= 3: // only the old plus-build syntax
 		lines := plus(e)
 		if lines == nil {
 			labels = append(labels, "no-constraint")
